@@ -127,6 +127,13 @@ def run_model(case, d):
         if mode == "globalrepo":
             kw["global_repository"] = True
         mm = metamodel_from_str(case["grammar"], **kw)
+        if mode == "globalrepo" and case.get("cross"):
+            # references resolve across all files of the directory (cross-file reference edges in the export)
+            from textx.scoping import providers
+            mm.register_scope_providers({"*.*": providers.PlainNameGlobalRepo(os.path.join(d, "*"))})
+            for f in case["files"]:
+                with open(os.path.join(d, f["name"]), "w", encoding="utf-8") as fh:
+                    fh.write(f["text"])
         models = []
         for f in case["files"]:
             p = os.path.join(d, f["name"])
@@ -144,6 +151,7 @@ def run_model(case, d):
                 order.append(o)
     out = os.path.join(d, "out.dot")
     exported = models[:1]
+    repo_path = mode == "repo"
     if mode == "single":
         ex.model_export(models[0], out)
     elif mode == "globalrepo":
@@ -153,6 +161,7 @@ def run_model(case, d):
         rep = getattr(models[-1], "_tx_model_repository", None)
         if rep is not None and len(rep.all_models):
             exported = list(rep.all_models)
+            repo_path = True
     elif mode == "repo":
         ex.model_export(None, out, repo=models)
     elif mode == "generator":
@@ -168,7 +177,8 @@ def run_model(case, d):
     text = text.replace(d, "/T")
     roots = [seen[id(m)] for m in (models if mode == "repo" else exported)]
     files = [None if m._tx_filename is None else m._tx_filename.replace(d, "/T") for m in models]
-    return {"text": text, "objects": dump_objects(order, seen), "roots": roots, "files": files}
+    root_files = [str(m._tx_filename).replace(d, "/T") for m in (models if mode == "repo" else exported)]
+    return {"text": text, "objects": dump_objects(order, seen), "roots": roots, "files": files, "repo_path": repo_path, "root_files": root_files}
 
 
 def run_metamodel(case, d):
@@ -193,6 +203,15 @@ def run_metamodel(case, d):
         captured[:] = r
         return r
     ex.get_unified_classes = spy
+    # rows of the match-rule table / legend: every dot_match_str call made while the trailer is rendered
+    orig_dms = ex.dot_match_str
+    rows = []
+
+    def dms_spy(cls_, other=None):
+        r = orig_dms(cls_, other)
+        rows.append([cls_.name, r])
+        return r
+    ex.dot_match_str = dms_spy
     try:
         if mode == "dot":
             ex.metamodel_export(mm, out)
@@ -211,6 +230,7 @@ def run_metamodel(case, d):
             out = os.path.join(od, names[0])
     finally:
         ex.get_unified_classes = orig
+        ex.dot_match_str = orig_dms
     with open(out, encoding="utf-8") as fh:
         text = fh.read()
     cl = []
@@ -221,7 +241,10 @@ def run_metamodel(case, d):
         cl.append({"name": c.name, "fqn": c.fqn, "typ": TYP.get(c.typ, str(c.typ)), "builtin": c.fqn in ALL_TYPE_NAMES or c.name in ALL_TYPE_NAMES,
                    "attrs": [{"name": a.name, "cls": a.cls.name, "clsid": idmap.get(id(a.cls), -1), "mult": a.mult, "cont": bool(a.cont), "ref": bool(a.ref)} for a in c.attrs],
                    "inh_by": [idmap.get(id(x), -1) for x in c.inh_by]})
-    return {"text": text, "classes": cl, "nclasses_mm": len(classes)}
+    if mode in ("dot", "gen_dot"):
+        from html import escape
+        rows = [[n, escape(t)] for n, t in rows]
+    return {"text": text, "classes": cl, "nclasses_mm": len(classes), "rows": rows}
 
 
 def run_escape(case, d):
